@@ -8,6 +8,13 @@ const SSE42: u8 = 2;
 const NOP: u8 = 3;
 
 fn detect_runtime_feature() -> u8 {
+    #[cfg(httparse_verif)]
+    {
+        let forced = verif::FORCED.load(Ordering::Relaxed);
+        if forced != 0 {
+            return forced;
+        }
+    }
     if is_x86_feature_detected!("avx2") {
         AVX2
     } else if is_x86_feature_detected!("sse4.2") {
@@ -21,11 +28,19 @@ static RUNTIME_FEATURE: AtomicU8 = AtomicU8::new(0);
 
 #[inline]
 fn get_runtime_feature() -> u8 {
+    #[cfg(httparse_verif)]
+    verif::point(0, 0);
     let mut feature = RUNTIME_FEATURE.load(Ordering::Relaxed);
     if feature == 0 {
+        #[cfg(httparse_verif)]
+        verif::point(1, feature);
         feature = detect_runtime_feature();
+        #[cfg(httparse_verif)]
+        verif::point(2, feature);
         RUNTIME_FEATURE.store(feature, Ordering::Relaxed);
     }
+    #[cfg(httparse_verif)]
+    verif::point(3, feature);
 
     feature
 }
@@ -53,5 +68,47 @@ pub fn match_header_value_vectored(bytes: &mut Bytes) {
             SSE42 => sse42::match_header_value_vectored(bytes),
             _ /* NOP */ => super::swar::match_header_value_vectored(bytes),
         }
+    }
+}
+
+// Verification seam, compiled only with `--cfg httparse_verif`: lets a simulator
+// override the detection result, reset the cached id and observe the four steps
+// of `get_runtime_feature`. Never changes behaviour unless explicitly driven.
+#[cfg(httparse_verif)]
+#[allow(missing_docs)]
+pub mod verif {
+    use std::sync::atomic::{AtomicU8, AtomicUsize, Ordering};
+
+    pub(super) static FORCED: AtomicU8 = AtomicU8::new(0);
+    static HOOK: AtomicUsize = AtomicUsize::new(0);
+
+    #[inline]
+    pub(super) fn point(id: u8, value: u8) {
+        let h = HOOK.load(Ordering::Relaxed);
+        if h != 0 {
+            // SAFETY: only `set_hook` stores here, and it stores a valid `fn(u8, u8)`.
+            let f: fn(u8, u8) = unsafe { core::mem::transmute::<usize, fn(u8, u8)>(h) };
+            f(id, value);
+        }
+    }
+
+    /// Install (or remove) a callback invoked at each step of `get_runtime_feature`.
+    pub fn set_hook(f: Option<fn(u8, u8)>) {
+        HOOK.store(f.map_or(0, |f| f as usize), Ordering::Relaxed);
+    }
+
+    /// Override what detection reports (1 = AVX2, 2 = SSE4.2, 3 = none, 0 = real detection).
+    pub fn force_backend(id: u8) {
+        FORCED.store(id, Ordering::Relaxed);
+    }
+
+    /// Forget the cached detection result, as in a fresh process.
+    pub fn reset_cache() {
+        super::RUNTIME_FEATURE.store(0, Ordering::Relaxed);
+    }
+
+    /// The cached detection result (0 = not yet detected).
+    pub fn cached() -> u8 {
+        super::RUNTIME_FEATURE.load(Ordering::Relaxed)
     }
 }
